@@ -35,14 +35,14 @@ TcpBased == tp \in {"tcp", "btcp", "tls", "btls", "utls", "utlst"}
 U == INSTANCE Utls WITH Clients <- {1}, UxReach <- {1}, srv <- "up", uxq <- <<>>, tlsq <- <<>>, leg <- <<"none">>, acc <- <<>>, uxerr <- FALSE
 LegNo(g) == IF g = "ux" THEN 1 ELSE IF g = "tls" THEN 2 ELSE 0
 \* scenarios in which nothing goes wrong: the peer accepts, both sides exchange their messages, one closes
-FaultFree == {"normal", "ctlflood", "garbage2", "longidle"}
+FaultFree == {"normal", "ctlflood", "garbage2", "longidle", "accfail"}
 
 \* what the remote address does in each scenario (Peer of XcmEst) and the errno the documentation promises for it
 PeerOf(s) == CASE s \in FaultFree -> "accept" [] s = "refused" -> "refuse" [] s = "silent" -> "silent"
                [] s = "release" -> "late" [] s = "mute" -> "mute" [] s = "garbage" -> "garbage" [] OTHER -> "none"
 Promised(peer) == CASE peer = "refuse" -> ECONNREFUSED [] peer = "silent" -> ETIMEDOUT [] peer = "garbage" -> EPROTO [] OTHER -> 0
 
-ApiOps == {"sv", "cn", "ac", "f", "s", "r", "a", "fd", "ga", "sa", "cl", "vc", "vf", "vx"}
+ApiOps == {"sv", "cn", "ac", "acx", "f", "s", "r", "a", "fd", "ga", "sa", "cl", "vc", "vf", "vx"}
 
 \* every API call on these non-blocking sockets
 StepApi(ln) ==
@@ -113,6 +113,8 @@ StepQ(ln) ==
         Chk(~(scen = "release" /\ ln.wire[1] >= 0) \/ (ln.wire[4] = 0 /\ ln.wire[1] <= ln.sent[1]), IF tp = "btcp" THEN "C02.phantom" ELSE "C01.phantom", ln.sent[1], ln.wire),
         Chk(~(scen = "release" /\ ln.wire[1] >= 0) \/ (ln.wire[4] = 0 /\ ln.wire[1] <= ln.sent[1]), "C03.failed_delivered", ln.sent[1], ln.wire),
         Chk(~(scen = "release" /\ ln.wire[1] >= 0) \/ ln.wire[2] = 1, "C01.order", 1, ln.wire),
+        \* C07: a peer whose (untrusted) certificate carries an odd subject key identifier is turned down, never established
+        Chk(~(scen = "badski") \/ ln.est # <<1, 1>>, "C07.hostile_cert_accepted", "refused", ln.est),
         \* a late answer leads to an established connection
         Chk(~(peer = "late" /\ ln.stk = 0 /\ ~TlsBased) \/ ln.est[1] = 1, "C04.progress", 1, ln.est[1])
       >>
